@@ -15803,6 +15803,10 @@ type PathAttributePmsiTunnel struct {
 }
 
 func (p *PathAttributePmsiTunnel) DecodeFromBytes(data []byte, options ...*MarshallingOption) error {
+	// An UPDATE can be handed back (treat-as-withdraw) with an attribute
+	// that failed to decode still in it, so keep the value renderable on
+	// every error path: Serialize and MarshalJSON dereference TunnelID.
+	p.TunnelID = &DefaultPmsiTunnelID{}
 	value, err := p.PathAttribute.DecodeFromBytes(data, options...)
 	if err != nil {
 		return err
